@@ -6,6 +6,11 @@ Families
                  ``get(i)`` == ``get(None)[:, [i]]`` (bitwise; <= 4 ulp of the maturity for
                  time_to_maturity with a non-dyadic dt), shape (N, 1, F); FeatureList columns are the
                  features in the order given, for one step and for all steps.
+  feature_resim  re-simulation histories on ONE derivative object with features bound once: the underlier
+                 is re-simulated (scripted simulate) >= 3 times with path sets of the same shape and
+                 different content (rows reversed / rolled / interleaved, and back); after every round and
+                 in both orders (get(i) first / get(None) first) get(i) == get(None)[:, [i]] and both equal
+                 models/feature_ref on the CURRENT buffers.
   hedge_loop     the stepwise loop against the reference automaton (models/hedge_loop.py): a recording
                  wrapper logs what the model sees; in_0 carries zeros of shape (N,1,H) in the prev_hedge
                  slot, in_i carries out_{i-1} bitwise, exactly T-1 model calls, last column repeated,
@@ -20,6 +25,9 @@ Families
                  the stepwise branch (same inputs + an ignored prev_hedge): compute_hedge, compute_pl,
                  compute_portfolio, compute_loss (same scripted simulate) agree, and both equal the
                  reference loop - bitwise for exact (dyadic) models, 1e-12 relative for transcendental.
+                 Includes models returning a VIEW of their input (Identity, a slicing module) on
+                 single-feature input lists; the simulated buffers must be bitwise unchanged by every
+                 call (own class mutates_market_data).
 """
 from __future__ import annotations
 
@@ -218,6 +226,135 @@ def feature_steps(ctx, block):
                               f"FeatureList.get({i}) column {c} is not feature #{c} of the list",
                               observed=col[0, 0].tolist(), expected=exp[0, 0].tolist(), block=mini)
 
+
+
+# ----------------------------------------------------------------------------
+# (i') features x steps over re-simulation histories of ONE derivative object
+# ----------------------------------------------------------------------------
+
+def ref_table(spec, world):
+    """(N, T) tensor of models/feature_ref values on the world's CURRENT script (python loop over the
+    prefix of every path; one evaluation per tree node when the full path set is present), or None
+    where the reference does not model the feature."""
+    from mc.models import feature_ref
+    env, T, N = world.env, world.T, world.N
+    sp = world.spot.tolist()
+    se = None if world.second is None else world.second.tolist()
+    out = [[0.0] * T for _ in range(N)]
+    cache = {}
+    for r in range(N):
+        for t in range(T):
+            key = (tuple(sp[r][: t + 1]), None if se is None else tuple(se[r][: t + 1]))
+            v = cache.get((t, key))
+            if v is None:
+                v = feature_ref.value(spec, t, sp[r][: t + 1], None if se is None else se[r][: t + 1], env)
+                if v is None:
+                    return None
+                cache[(t, key)] = v
+            out[r][t] = v
+    return torch.tensor(out, dtype=torch.float64).to(world.dtype)
+
+
+def _perm(name, N):
+    ar = torch.arange(N)
+    if name == "A":
+        return ar
+    if name == "reversed":
+        return ar.flip(0)
+    if name == "rolled":
+        return ar.roll(N // 3 + 1)
+    if name == "interleaved":
+        return torch.cat([ar[1::2], ar[0::2]])
+    raise KeyError(name)
+
+
+@family
+def feature_resim(ctx, block):
+    """One derivative object, features bound once; the underlier is re-simulated (scripted simulate,
+    as fit / compute_loss / price do every epoch) with path sets of the SAME shape but different
+    content; after every round, every feature at every step: get(i) == get(None)[:, [i]] and both
+    equal the reference on the CURRENT buffers.  Both evaluation orders."""
+    w = block["world"]
+    T = w["T"]
+    world = hw.build_world(w)
+    N = world.N
+    base_spot = world.spot.clone()
+    base_second = None if world.second is None else world.second.clone()
+    second_name = market.TWO_FACTOR.get(w["ul"])
+    rounds = block["rounds"]
+    scripts = []
+    for name in rounds:
+        pm = _perm(name, N)
+        bufs = {"spot": base_spot[pm]}
+        if base_second is not None:
+            bufs[second_name] = base_second[pm]
+        scripts.append(bufs)
+    feats = []
+    for spec in block["features"]:
+        if spec["f"] == "empty" or not hw.feature_supported(spec, w):
+            continue
+        feats.append((spec, hw.bind(hw.make_feature(spec, world, ctx.seed), world),
+                      ref_table(spec, world) if block.get("reference", True) and spec.get("out", 1) == 1 else None))
+    sim = market.ScriptedSimulate(world.p, scripts, cycle=False)
+    where = f"{w['ul']}/{w.get('kind')}/{w.get('dtype', 'float64')}"
+    eps = torch.finfo(world.dtype).eps
+    ctx.add("states", len(rounds))
+    try:
+        for r, name in enumerate(rounds):
+            world.d.simulate(n_paths=N)
+            ctx.add("transitions", 1)
+            pm = _perm(name, N)
+            if not torch.equal(world.p.spot, base_spot[pm]):
+                raise AssertionError("scripted simulate did not register the round's script")
+            step_first = (r % 2 == 0) == (block["order"] == "step_first")
+            for spec, f, table in feats:
+                site = hw.site_of(spec)
+                lab = hw.label(spec)
+                mini = dict(block, features=[spec])
+                hist = f"round {r} ({'->'.join(rounds[: r + 1])}), {'get(i) first' if step_first else 'get(None) first'}"
+                with torch.no_grad():
+                    if step_first:
+                        steps = [f.get(i) for i in range(T)]
+                        full = f.get(None).clone()
+                    else:
+                        full = f.get(None).clone()
+                        steps = [f.get(i) for i in range(T)]
+                stacked = torch.cat(steps, dim=1)
+                exact = hw.is_exact(spec) and not (_contains_ttm(spec) and w.get("dt", "dyadic") != "dyadic")
+                fresh = r > 0 and not torch.equal(base_spot[pm], base_spot[_perm(rounds[r - 1], N)])
+                ctx.tick(N * T, nontrivial=N * T if fresh else 0)
+                if tuple(stacked.shape) != tuple(full.shape):
+                    ctx.violation(site, "resimulated:shape", f"{lab}: shapes {tuple(stacked.shape)} vs "
+                                  f"{tuple(full.shape)} after {hist} ({where})", block=mini)
+                    continue
+                ok = _close(stacked, full, exact)
+                if not ok.all():
+                    row = int((~ok).flatten(1).any(1).nonzero()[0])
+                    i = int((~ok)[row].flatten(1).any(1).nonzero()[0]) if ok.dim() == 3 else 0
+                    ctx.violation(site, "resimulated:get(i)!=get(None)[:,[i]]",
+                                  f"{lab}.get({i}) != get(None)[:, [{i}]] on {int((~ok).flatten(1).any(1).sum())}/{N} "
+                                  f"paths after re-simulating the same derivative object: {hist} ({where})",
+                                  observed={"current_path": world.p.spot[row].tolist(),
+                                            "get(i) for i=0..T-1": stacked[row].flatten().tolist()},
+                                  expected={"get(None)": full[row].flatten().tolist()}, block=mini)
+                if table is not None:
+                    ref = table[pm].unsqueeze(-1)
+                    for mode, got in (("get(i)", stacked), ("get(None)", full)):
+                        # tolerance as in C02: 0 where exact, else 8 eps (1+|ref|) (two correctly rounded logs
+                        # of a correctly rounded quotient)
+                        good = _eq(got, ref) if exact else (((got - ref).abs() <= 8 * eps * (1 + ref.abs())) | _eq(got, ref))
+                        if not good.all():
+                            row = int((~good).flatten(1).any(1).nonzero()[0])
+                            ctx.violation(site, f"resimulated:value:{mode}",
+                                          f"{lab} {mode} is not the documented function of the CURRENT paths after "
+                                          f"{hist} ({where})",
+                                          observed={"current_path": world.p.spot[row].tolist(),
+                                                    "value": got[row].flatten().tolist()},
+                                          expected=ref[row].flatten().tolist(), block=mini)
+                ctx.outcome((lab, where, r, round(float(full.nan_to_num(nan=7.0).sum()), 9)))
+    finally:
+        sim.remove()
+    ctx.add("traces_validated_against_impl", N * len(rounds))
 
 # ----------------------------------------------------------------------------
 # (ii) the hedge loop as a state machine
@@ -526,10 +663,25 @@ def branches(ctx, block):
                     "pl": lambda: kit.hedger.compute_pl(world.d, hedge=world.hedge),
                     "portfolio": lambda: kit.hedger.compute_portfolio(world.d, hedge=world.hedge),
                     "loss": lambda: _loss_via_scripted_simulate(kit, world)}[what]
+            before = market.snapshot(world.d)
             ok, val = _guard(ctx, "Hedger.compute_" + what, f"branches:{mode}",
                              f"model={m['model']} {w['ul']}/{w.get('kind')} H={world.H}", block, call)
             if not ok:
                 return
+            # the simulated market must be bitwise what it was (compute_loss re-registers the same
+            # scripted buffers: only values / dtype / shape count there, not the storage)
+            changed = [(k, why) for k, why in market.snapshot_diff(before, market.snapshot(world.d))
+                       if why != "storage" or what != "loss"]
+            if changed:
+                (_, name), why = changed[0]
+                buf = dict(world.p.named_buffers())[name]
+                orig_buf = before[(0, name)][0]
+                r = int(((buf != orig_buf).any(-1)).nonzero()[0]) if why == "values" else 0
+                ctx.violation("Hedger.compute_" + what, f"mutates_market_data:{mode}",
+                              f"compute_{what} ({mode}) changed the simulated buffer '{name}' ({why}) "
+                              f"(model={m['model']} inputs={[hw.label(s_) for s_ in m.get('inputs', [])]} "
+                              f"{w['ul']}/{w.get('kind')})",
+                              observed={name: buf[r].tolist()}, expected={name: orig_buf[r].tolist()}, block=block)
             if what == "loss":
                 val, log = val
                 if len(log) != 1 or log[0]["n_paths"] != world.N:
@@ -647,13 +799,25 @@ def branch_models(listed):
     if listed:
         out.append({"model": "linear", "inputs": [{"f": "spot", "pricer": listed}, {"f": "underlier_spot"},
                                                   {"f": "log_spot", "pricer": listed}]})
+        out.append({"model": "identity", "inputs": [{"f": "spot", "pricer": listed}]})
+    # models that return (a view of) their input, single-feature input lists (H = 1 only): whatever the
+    # hedger does in place to the model output it does to the feature tensor
+    for f in ("underlier_spot", "moneyness", "time_to_maturity", "variance", "volatility", "max_moneyness",
+              "log_moneyness", "zeros"):
+        out.append({"model": "identity", "inputs": [{"f": f}], "view": True})
+    out += [{"model": "identity", "inputs": [{"f": "barrier", "threshold": 1.0, "up": True}], "view": True},
+            {"model": "first", "inputs": [{"f": "underlier_spot"}], "view": True},
+            {"model": "first", "inputs": [{"f": "time_to_maturity"}, {"f": "moneyness"}], "view": True},
+            {"model": "first", "inputs": [{"f": "variance"}, {"f": "underlier_spot"}], "view": True}]
     return out
 
 
 def run(ctx):
     ctx.rule("feature_steps: every feature x derivative kind x underlier x listing x dtype x every index in [-T,T) on "
              "all joint paths (non-trivial = rows where the feature differs between neighbouring steps, so a wrong "
-             "index is visible). hedge_loop: every state-dependent model x world x H in {1,2,3} x n_paths in {1, all}: "
+             "index is visible). feature_resim: one derivative object re-simulated 4 times with same-shape path sets, "
+             "both evaluation orders, every feature x step against get(None) and the reference on the current "
+             "buffers. hedge_loop: every state-dependent model x world x H in {1,2,3} x n_paths in {1, all}: "
              "recorded model inputs/outputs replayed against the reference automaton (states = distinct prev_output "
              "vectors reached, transitions = per-path steps; non-trivial = steps entered with a non-zero state). "
              "hedge_ops: BFS to a fixpoint over call histories on one hedger (abstract state = shape/dtype of the "
@@ -761,7 +925,10 @@ def run(ctx):
                             continue
                         if m["model"] == "naked" and (H > 1 and ctx.quick):
                             continue
-                        bblocks.append({"world": w, "model": m})
+                        if ctx.quick and m.get("view") and (ul not in ("brownian", "heston") or not call or listed or
+                                                            kind not in ("european", "lookback", "variance_swap")):
+                            continue
+                        bblocks.append({"world": w, "model": {k: v for k, v in m.items() if k != "view"}})
     # float32, exact models only
     for kind in ("european", "lookback"):
         w = {"ul": "heston", "kind": kind, "call": True, "T": T, "As": As, "Av": Av["variance"], "dtype": "float32",
@@ -780,15 +947,33 @@ def run(ctx):
             if hw.model_ok(m, w):
                 bblocks.append({"world": w, "model": m})
         fblocks.append({"world": dict(w, hedge="default"), "features": feature_specs(A, None)})
-    ctx.info["blocks"] = {"feature_steps": len(fblocks), "hedge_loop": len(lblocks), "hedge_ops": len(oblocks),
+    # ---- (i') re-simulation histories on one derivative object
+    rblocks = []
+    for ul, kind, listed, dtype in itertools.product(
+            ["brownian", "heston"] if ctx.quick else ["brownian", "heston", "local_vol", "rough_bergomi", "merton", "cir"],
+            ["european", "lookback", "variance_swap"] if ctx.quick else list(market.ALL_DERIVATIVE_KINDS),
+            [None, "dyadic"], ["float64", "float32"]):
+        if listed and kind == "variance_swap":
+            continue
+        if dtype == "float32" and (kind != "lookback" or listed):
+            continue
+        for order, rounds in (("step_first", ["A", "reversed", "rolled", "A"]),
+                              ("all_first", ["A", "interleaved", "reversed", "interleaved"])):
+            w = {"ul": ul, "kind": kind, "call": True, "T": T, "As": As if ul in market.TWO_FACTOR and ctx.quick else A,
+                 "Av": Av.get(market.TWO_FACTOR.get(ul)), "dtype": dtype, "listed": listed}
+            if hw.world_ok(w):
+                rblocks.append({"world": w, "features": feature_specs(w["As"], listed), "order": order,
+                                "rounds": rounds, "reference": True})
+    ctx.info["blocks"] = {"feature_resim": len(rblocks), "feature_steps": len(fblocks), "hedge_loop": len(lblocks), "hedge_ops": len(oblocks),
                           "branches": len(bblocks)}
     if ctx.quick:
-        for name, blocks in (("feature_steps", fblocks), ("hedge_loop", lblocks), ("hedge_ops", oblocks),
-                             ("branches", bblocks)):
+        for name, blocks in (("feature_steps", fblocks), ("feature_resim", rblocks), ("hedge_loop", lblocks),
+                             ("hedge_ops", oblocks), ("branches", bblocks)):
             for b in blocks:
                 ctx.run(name, b)
     else:
         ctx.run_parallel("feature_steps", fblocks)
+        ctx.run_parallel("feature_resim", rblocks)
         ctx.run_parallel("hedge_loop", lblocks)
         for b in oblocks:
             ctx.run("hedge_ops", b)
